@@ -302,7 +302,7 @@ def interpreter_defect_312(o, src, pre=None):
     import ast
     import sys
     from . import findings
-    if sys.version_info[:2] < (3, 12) or o.status != "eval-raise:UnboundLocalError" or not o.out:
+    if sys.version_info[:2] < (3, 12) or o.status not in ("eval-raise:UnboundLocalError", "eval-raise:NameError") or not o.out:
         return None
     try:
         if not findings.cpython_sibling_inlined_comprehensions(ast.parse(o.out, mode="eval")):
@@ -310,5 +310,5 @@ def interpreter_defect_312(o, src, pre=None):
     except (SyntaxError, ValueError, RecursionError, MemoryError):
         return None
     if text_is_right_on_neighbour_runtimes(src, o.out, pre) is True:
-        return "reference-model-defect:cpython>=3.12 sibling inlined comprehensions (text is right on 3.10 and 3.11)"
+        return "reference-model-defect:cpython>=3.12 inlined-comprehension variable clash (text is right on 3.10 and 3.11)"
     return None
